@@ -85,3 +85,9 @@ Proof.
   apply Forall_forall. intros g Hg. apply in_map_iff in Hg. destruct Hg as [gc [<- Hin]].
   rewrite Forall_forall in Hp. exact (Hp gc Hin).
 Qed.
+
+(* the hypotheses of Write_stmt / Set1_stmt are satisfiable (least-divisor oracle: never 1 on nn > 1), and the models run *)
+Example write_example :
+  write_model (fun nn => Some (least_div (Z.to_nat nn) 2 nn)) 20 (-360) = Some (true, None, [(2, 3); (3, 2); (5, 1)])
+  /\ set1_model (fun nn => Some (least_div (Z.to_nat nn) 2 nn)) 20 (-360) = Some (if SET1_ABS then [2; 3; 5] else []).
+Proof. vm_compute. split; reflexivity. Qed.
